@@ -50,6 +50,9 @@ pub struct ShapeWriter<T: Write + Seek> {
     header: header::Header,
     rec_num: u32,
     dirty: bool,
+    // true while a finalize() that failed may have left the destinations anywhere
+    // (it rewrites the headers in place): the next record must not go there
+    displaced: bool,
 }
 
 impl<T: Write + Seek> ShapeWriter<T> {
@@ -63,6 +66,7 @@ impl<T: Write + Seek> ShapeWriter<T> {
             header: header::Header::default(),
             rec_num: 1,
             dirty: true,
+            displaced: false,
         }
     }
 
@@ -73,6 +77,7 @@ impl<T: Write + Seek> ShapeWriter<T> {
             header: Default::default(),
             rec_num: 1,
             dirty: true,
+            displaced: false,
         }
     }
 
@@ -126,6 +131,19 @@ impl<T: Write + Seek> ShapeWriter<T> {
                 });
             }
             _ => {}
+        }
+
+        if self.displaced {
+            // Go back to where the records and the index entries end
+            self.shp_dest
+                .seek(SeekFrom::Start(self.header.file_length as u64 * 2))?;
+            if let Some(shx_dest) = &mut self.shx_dest {
+                let num_entries = u64::from(self.rec_num - 1);
+                shx_dest.seek(SeekFrom::Start(
+                    header::HEADER_SIZE as u64 + num_entries * 2 * size_of::<i32>() as u64,
+                ))?;
+            }
+            self.displaced = false;
         }
 
         let record_size = (shape.size_in_bytes() + std::mem::size_of::<i32>()) / 2;
@@ -204,6 +222,7 @@ impl<T: Write + Seek> ShapeWriter<T> {
 
         // Ranges nothing was written to are stored as 0, in a copy: the running
         // box must keep growing from its initial state after an intermediate finalize.
+        self.displaced = true;
         let mut hdr = self.header;
         if hdr.bbox.max.m == f64::NEG_INFINITY && hdr.bbox.min.m == f64::INFINITY {
             hdr.bbox.max.m = 0.0;
@@ -230,6 +249,7 @@ impl<T: Write + Seek> ShapeWriter<T> {
             shx_dest.flush()?;
         }
         self.dirty = false;
+        self.displaced = false;
         Ok(())
     }
 }
